@@ -307,7 +307,7 @@ func (f *Flow) normCond(e ast.Expr, depth int) ast.Expr {
 		}
 	case *ast.Ident:
 		o, ok := f.Info.Uses[x].(*types.Var)
-		if !ok || o.IsField() || !posIn(f.Body, o.Pos()) || !isBoolType(o.Type()) {
+		if !ok || o.IsField() || !localIn(f.Body, o) || !isBoolType(o.Type()) {
 			return e
 		}
 		def, n := localDef(f.Info, f.Body, o)
@@ -1450,7 +1450,7 @@ func (f *Flow) World(val func(atom ast.Expr) (truth bool, known bool)) func(b *c
 		}
 		// named-boolean idiom: `x := <cond>` defined once, operands untouched between definition and use
 		if id, ok := e.(*ast.Ident); ok && f.Body != nil {
-			if o, ok := f.Info.Uses[id].(*types.Var); ok && !o.IsField() && posIn(f.Body, o.Pos()) {
+			if o, ok := f.Info.Uses[id].(*types.Var); ok && !o.IsField() && localIn(f.Body, o) {
 				if def, n := localDef(f.Info, f.Body, o); n == 1 && def != nil && def.Pos() < id.Pos() {
 					if tv, ok := f.Info.Types[def]; ok && tv.Value == nil && isBoolType(tv.Type) {
 						stable := true
@@ -1712,7 +1712,6 @@ func (f *Flow) KnownNonNil(v types.Object) bool {
 	return false
 }
 
-
 // rawBetween: in the control-flow graph (conditions ignored) the node at mid lies on a path from the node at from to
 // the node at to that does not pass `from` again (a call in the other arm of an if/else does not lie between a
 // definition and its use). Unlocated positions count as "between".
@@ -1764,5 +1763,6 @@ func (f *Flow) rawBetween(from, mid, to token.Pos) bool {
 	return reach(pf, pm, pf) && reach(pm, pt, pf)
 }
 
-
-func isCall_(info *types.Info, call *ast.CallExpr, names ...string) bool { return isCall(info, call, names...) }
+func isCall_(info *types.Info, call *ast.CallExpr, names ...string) bool {
+	return isCall(info, call, names...)
+}
